@@ -28,6 +28,8 @@ func init() {
 			obs = append(obs, c.KindTables()...)
 			obs = append(obs, c.NaturalTypes()...)
 			obs = append(obs, c.OmitEmptyTestsField()...)
+			obs = append(obs, c.EmptinessCoversKinds()...)
+			obs = append(obs, c.AppendOwnership("nbt", "nbt/dynbt")...)
 			obs = append(obs, c.TagWidths("nbt", "nbt/dynbt")...)
 			obs = append(obs, c.ClauseConsistency("nbt", "nbt/dynbt")...)
 			obs = append(obs, c.BitFields("nbt", "nbt/dynbt")...)
@@ -45,6 +47,7 @@ func init() {
 			obs = append(obs, filterObs(c.MarshalerContract(), func(o core.Ob) bool { return strings.HasPrefix(o.Key, "nbt") })...)
 			obs = append(obs, c.AppendOwnership("nbt", "nbt/dynbt")...)
 			obs = append(obs, c.FreshElements("nbt", "nbt/dynbt")...)
+			obs = append(obs, c.FixedBufferCopies("nbt", "nbt/dynbt")...)
 			obs = append(obs, c.TagWidths("nbt", "nbt/dynbt")...)
 			return obs
 		},
@@ -55,6 +58,8 @@ func init() {
 			obs := c.SNBTSuffix()
 			obs = append(obs, c.SNBTLiteralWidths()...)
 			obs = append(obs, c.RuneTruncation("nbt")...)
+			obs = append(obs, c.ScannerDetours("nbt")...)
+			obs = append(obs, c.StringIndexGuards(pkgPred("nbt"))...)
 			obs = append(obs, filterObs(c.TagDispatch("nbt"), func(o core.Ob) bool { return strings.Contains(o.Key, "StringifiedMessage") })...)
 			// scope: what the exported text entry points reach inside package nbt (call graph, not names)
 			var rootNames []string
@@ -85,6 +90,7 @@ func init() {
 			obs := c.CipherWiring()
 			obs = append(obs, c.NoRetainedParamSlices("net/CFB8")...)
 			obs = append(obs, c.BlockSlices("net/CFB8")...)
+			obs = append(obs, c.ConnInit()...)
 			return obs
 		},
 	}
@@ -93,6 +99,8 @@ func init() {
 		Run: func(c *Ctx) []core.Ob {
 			obs := c.BitStorageGuards()
 			obs = append(obs, c.BitStorageFixSibling()...)
+			obs = append(obs, c.BitWidthInverse()...)
+			obs = append(obs, c.BitStorageReadLength()...)
 			obs = append(obs, c.wireObs(func(p, t string) bool { return p == "level" && t == "BitStorage" })...)
 			in := c.reachFromTypes("level", []string{"BitStorage"}, "NewBitStorage")
 			obs = append(obs, c.TLGObs(in, in, false)...)
